@@ -683,8 +683,12 @@ DET_OFFERS = [
     ["base64, chat"], ["chat, base64"], ["base64,chat"], ["mqtt, base64, chat"], ["chat,base64,mqtt"],
     ["chat, binary, base64"], ["base64, chat, binary"], ["binary, mqtt, base64, chat"],
     ["chat"], ["chat, mqtt"], ["mqtt,chat"], ["BINARY"], ["Binary, chat"], ["chat, BASE64"], ["Base64"], ["binary, BASE64"],
-    ["v.binary.k"] and ["chat, v1.mqtt"], ["chat", "binary"], ["binary", "chat"], ["binary, chat", "mqtt"], ["mqtt", "binary, chat"],
+    ["chat, v1.mqtt"], ["chat", "binary"], ["binary", "chat"], ["binary, chat", "mqtt"], ["mqtt", "binary, chat"],
     ["chat", "mqtt, binary, soap"], ["base64", "binary"], ["binary", "base64"], ["chat, mqtt", "soap"],
+    # the words inside longer tokens: nothing of that is an offer of binary / base64
+    ["superbase64x"], ["xbinary"], ["binaryx, chat"], ["chat, notbase64"], ["v.binary.k"], ["base64url, binary"],
+    ["binary2,base64"], ["base64-binary"], ["chat,binary.v2 ,mqtt"], ["binary base64"], ["xbase64, ybinary"],
+    ["binary;q=1"], ["base64\t,\tbinary"], ["\tbinary\t"], ["chat,,binary"], [","], ["binary,"], [",base64"],
 ]
 
 
@@ -751,15 +755,12 @@ def oracle_hs(req, ob):
         return "accept key %r, expected %r" % (rh.get("sec-websocket-accept"), acc)
     offered = [t for o in offers for t in offer_tokens(o)]
     got = rh.get("sec-websocket-protocol")
-    # this server matches by substring: an offered token that merely CONTAINS the word (superbase64x)
-    # is a documented observation, not judged here
-    tricky = any(t not in ("binary", "base64") and ("binary" in t or "base64" in t) for t in offered)
     if got is not None:
         if got not in ("binary", "base64"):
             return "sub-protocol %r answered: not a single sub-protocol this server speaks (offer %r)" % (got, offers)
-        if not tricky and got not in offered:
+        if got not in offered:
             return "sub-protocol %r answered, which is not one of the offered tokens %r" % (got, offered)
-    if not tricky and len(offers) <= 1:
+    if len(offers) <= 1:
         want = "base64" if "base64" in offered else ("binary" if "binary" in offered else None)
         if got != want:
             return "sub-protocol %r chosen, offered %r (expected %r)" % (got, offered, want)
@@ -965,16 +966,19 @@ def load_corpus_ops():
     """corpus/C09/*.ops with function-level witnesses: `hs ...` lines (compared with the model, run
     under ASan) and `peek ...` lines"""
     d = os.path.join(common.VERIF, "corpus", "C09")
-    hs, pk = [], []
+    hs, pk, wf = [], [], set()
     if os.path.isdir(d):
         for f in sorted(os.listdir(d)):
             if f.endswith(".ops"):
-                for l in open(os.path.join(d, f)).read().splitlines():
+                text = open(os.path.join(d, f)).read()
+                for l in text.splitlines():
                     if l.startswith("hs "):
                         hs.append(l)
+                        if "# well-formed request" in text:
+                            wf.add(l)       # the wire oracle applies as well
                     elif l.startswith("peek "):
                         pk.append((l, "ok", 0))
-    return hs, pk
+    return hs, pk, wf
 
 
 def run(ctx):
@@ -1120,9 +1124,9 @@ def run(ctx):
             break
 
     # ---- function-level ops (encoder, chunked write, base64, sha1) and handshakes
-    corpus_hs, corpus_pk = load_corpus_ops()
+    corpus_hs, corpus_pk, corpus_wf = load_corpus_ops()
     flines = corpus_hs + ["hs " + r.hex() for r in det_offer_requests()] + func_lines(rng, ctx.tier)
-    exotic = set(corpus_hs)      # handshake requests outside the oracle's well-formed class: exact comparison only
+    exotic = set(corpus_hs) - corpus_wf      # handshake requests outside the oracle's well-formed class: exact comparison only
     hs_meta = []
     for i in range(60 if quick else 400):
         req, m = mk_request(rng, valid=(i % 4 != 3))
